@@ -6,7 +6,7 @@
    Answers:      {"r": ["lit", kind, n] | null, ...} depending on fn (see [entry_with]). *)
 From Coq Require Import ZArith Bool List String.
 Import ListNotations.
-Require Import Naga.Base.Json Naga.Base.Bits32 Naga.Fold.GoArith Naga.Fold.FoldModel Naga.Fold.ModEvalModel.
+Require Import Naga.Base.Json Naga.Base.Bits32 Naga.Fold.GoArith Naga.Fold.FoldModel Naga.Fold.ModEvalModel Naga.Fold.WgslConst.
 Open Scope Z_scope.
 Open Scope string_scope.
 
@@ -84,9 +84,7 @@ Definition json_of_mconst (o : option mconst) : json :=
   | None => JObj [("r", JNull)]
   end.
 
-Definition entry_with (F : float_ops) (j : json) : json :=
-  match field_str "fn" j, match field "e" j with Some e => expr_of_json 64 e | None => None end with
-  | Some fn, Some e =>
+Definition entry_dispatch (F : float_ops) (fn : string) (j : json) (e : cexpr) : json :=
     if String.eqb fn "fold_expr" then JObj [("r", jopt_lit (fold_expr F e))]
     else if String.eqb fn "fold_let" then JObj [("r", jopt_lit (fold_let F e))]
     else if String.eqb fn "fold_store" then
@@ -95,13 +93,48 @@ Definition entry_with (F : float_ops) (j : json) : json :=
     else if String.eqb fn "mod_const_bitnot" then json_of_mconst (mod_const_bitnot (ty_of j) e)
     else if String.eqb fn "mod_const_as" then
       match ty_of j with Some t => json_of_mconst (mod_const_as t e) | None => JObj [("err", JStr "ty")] end
-    else if String.eqb fn "mod_abstract_binary" then JObj [("r", jopt_lit (mod_abstract_binary e))]
+    else if String.eqb fn "mod_abstract_store" then
+      match ty_of j with
+      | Some t => JObj [("r", jopt_lit (option_map (fun l => concretize_expr_to_scalar F l t) (mod_abstract_binary e)))]
+      | None => JObj [("err", JStr "ty")]
+      end
     else if String.eqb fn "mod_switch_value" then JObj [("r", jopt_lit (mod_switch_value e))]
     else if String.eqb fn "mod_array_size" then
       JObj [("r", match mod_array_size e with ASize n => JNum n | ARuntime => JStr "runtime" | AError => JStr "error" end)]
     else if String.eqb fn "const_assert" then
       JObj [("r", match try_eval_constant_bool e with Some b => JBool b | None => JNull end)]
-    else if String.eqb fn "workgroup_dim" then JObj [("r", JNum (mod_workgroup_dim e))]
-    else JObj [("err", JStr "fn")]
+    else if String.eqb fn "workgroup_dim" then
+      JObj [("r", JNum (mod_workgroup_dim e)); ("evaluated", JBool (match eval_const_u32 e with Some _ => true | None => false end))]
+    else JObj [("err", JStr "fn")].
+
+(* the WGSL-specified outcome of the same request: "as" = "ty" (value used at type ty),
+   "default" (let without type), absent (the expression itself) *)
+Definition json_of_wres (r : wres) : json :=
+  match r with
+  | Ok v => json_of_lit (lit_of_wval v)
+  | Err x => JArr [JStr "err"; JStr match x with
+                                    | RDivZero => "division-by-zero" | RDivOverflow => "division-overflow"
+                                    | RShiftTooLarge => "shift-amount-too-large" | RShlOverflow => "shift-left-overflow"
+                                    | RAbstractOverflow => "abstract-int-overflow" | RNotRepresentable => "value-not-representable"
+                                    | RClampLowHigh => "clamp-low-greater-than-high" | RLiteralRange => "literal-out-of-range"
+                                    end]
+  | Ill => JStr "ill"
+  end.
+Definition spec_of (j : json) (e : cexpr) : json :=
+  let r := wgsl_eval e in
+  json_of_wres
+    match field_str "as" j with
+    | Some a => if String.eqb a "ty" then match ty_of j with Some t => wgsl_as_type t r | None => Ill end
+                else if String.eqb a "default" then wgsl_as_default r else r
+    | None => r
+    end.
+
+Definition entry_with (F : float_ops) (j : json) : json :=
+  match field_str "fn" j, match field "e" j with Some e => expr_of_json 64 e | None => None end with
+  | Some fn, Some e =>
+    match entry_dispatch F fn j e with
+    | JObj fs => JObj (fs ++ [("s", spec_of j e); ("rt", json_of_wres (rt_eval e)); ("exact", JBool (eval_exact e))])
+    | a => a
+    end
   | _, _ => JObj [("err", JStr "request")]
   end.
